@@ -5,6 +5,7 @@ from ..framework import rule
 from ..astutil import dotted, call_name, call_recv, norm, walk_local, unparse
 from ..index import AnalysisError
 from .. import q
+from .common import enclosing_for
 
 META = {
     "explanation": (
@@ -527,3 +528,98 @@ def r5(ctx, R):
     for st, t in q.attr_writes(rm, attr="path"):
         if not q.dominated(rm, rd, st):
             R.bad(rm, st, "path assigned before the model was read")
+
+
+def _last_iteration_false(test, ivar, nname):
+    """Is `test` (a Compare on the loop index) false on the last iteration i = N - 1 of `for i in range(N)`?
+    Decided for  i < N + c  /  i <= N + c  /  i != N + c  /  N + c > i ...  with an integer c; None if unknown."""
+    if not (isinstance(test, ast.Compare) and len(test.ops) == 1):
+        return None
+    l, op, r = test.left, test.ops[0], test.comparators[0]
+
+    def lin(e):     # -> (coefficient of N, constant) for i -> treated separately
+        if isinstance(e, ast.Name) and e.id == nname:
+            return (1, 0)
+        if isinstance(e, ast.Constant) and isinstance(e.value, int):
+            return (0, e.value)
+        if isinstance(e, ast.BinOp) and isinstance(e.op, (ast.Add, ast.Sub)):
+            a, b = lin(e.left), lin(e.right)
+            if a is None or b is None:
+                return None
+            s = 1 if isinstance(e.op, ast.Add) else -1
+            return (a[0] + s * b[0], a[1] + s * b[1])
+        return None
+    if isinstance(l, ast.Name) and l.id == ivar:
+        e = lin(r)
+        flip = False
+    elif isinstance(r, ast.Name) and r.id == ivar:
+        e = lin(l)
+        flip = True
+    else:
+        return None
+    if e is None or e[0] != 1:
+        return None
+    c = e[1]                      # the other side is N + c ; i = N - 1  ->  compare -1 with c
+    table = {ast.Lt: -1 < c, ast.LtE: -1 <= c, ast.Gt: -1 > c, ast.GtE: -1 >= c, ast.NotEq: -1 != c, ast.Eq: -1 == c}
+    if flip:
+        table = {ast.Lt: c < -1, ast.LtE: c <= -1, ast.Gt: c > -1, ast.GtE: c >= -1, ast.NotEq: -1 != c, ast.Eq: -1 == c}
+    v = table.get(type(op))
+    return None if v is None else (not v)
+
+
+@rule("C14.R6", "C14", "DOM", "a failed write into the archive is never swallowed", min_instances=1, also=("C04",))
+def r6(ctx, R):
+    """In modelx.serialize.ziputil every `except` handler ends in `raise` on every path, except the
+    `continue` of a bounded retry loop `for i in range(N)` whose guard is false on the last iteration
+    (so the last failure is re-raised).  A swallowed error lets write_model move an incomplete archive
+    over the destination and report success."""
+    n = 0
+    zmod = ctx.repo.module("modelx.serialize.ziputil")
+    for f in zmod.all_funcs:
+        for t in q.tries(f):
+            for h in t.handlers:
+                n += 1
+                R.inst("%s: handler `except %s` re-raises" % (f.short, norm(h.type) if h.type is not None else ""))
+                lp = enclosing_for(f, t)
+                ivar = nname = None
+                if isinstance(lp, ast.For) and isinstance(lp.target, ast.Name) and isinstance(lp.iter, ast.Call) \
+                        and norm(lp.iter.func) == "range" and len(lp.iter.args) == 1 and isinstance(lp.iter.args[0], ast.Name):
+                    ivar, nname = lp.target.id, lp.iter.args[0].id
+                # exits of the handler body
+                ends = []
+
+                def walk(body, guards):
+                    for i_, st in enumerate(body):
+                        last = i_ == len(body) - 1
+                        if isinstance(st, ast.Raise):
+                            return
+                        if isinstance(st, (ast.Continue, ast.Break, ast.Return)):
+                            ends.append((st, list(guards)))
+                            return
+                        if isinstance(st, ast.If):
+                            walk(st.body, guards + [(st.test, True)])
+                            walk(st.orelse or [ast.Pass()], guards + [(st.test, False)])
+                            if all(_terminates(b) for b in (st.body, st.orelse or [])):
+                                return
+                            continue
+                        if last:
+                            ends.append((st, list(guards)))
+                    if not body:
+                        ends.append((None, list(guards)))
+
+                def _terminates(body):
+                    return bool(body) and isinstance(body[-1], (ast.Raise, ast.Continue, ast.Break, ast.Return)) or \
+                        bool(body) and isinstance(body[-1], ast.If) and body[-1].orelse and \
+                        _terminates(body[-1].body) and _terminates(body[-1].orelse)
+                walk(h.body, [])
+                for st, guards in ends:
+                    if isinstance(st, ast.Continue) and ivar is not None:
+                        ok = any(pol and _last_iteration_false(tst, ivar, nname) is True for tst, pol in guards) or \
+                            any((not pol) and _last_iteration_false(tst, ivar, nname) is False for tst, pol in guards)
+                        if ok:
+                            continue
+                        R.bad(f, st, "the retry loop also retries after the last attempt: the final failure is not re-raised, "
+                                     "the file is silently missing from the archive")
+                    else:
+                        R.bad(f, st if st is not None else h, "a failed archive operation is swallowed: the save goes on and reports success")
+    R.need(n >= 1, "expected >=1 exception handler in ziputil, found %d" % n)
